@@ -18,6 +18,7 @@ const (
 	Ar4                 // exactly 4
 	ArInf               // 1 or more
 	ArEven              // 2 or more, even
+	ArMin3              // 3 or more (script, numkeys, first key)
 )
 
 type CmdSpec struct {
@@ -57,7 +58,8 @@ func init() {
 		"lrem", "lset", "ltrim", "smove", "zincrby", "zremrangebyrank", "zremrangebylex", "zremrangebyscore")
 	add(Ar4, true, "linsert")
 	add(ArInf, true, "del", "sort", "set", "hdel", "hmset", "lpush", "rpush", "pfadd", "pfmerge", "sadd", "sdiffstore",
-		"sinterstore", "srem", "sunionstore", "zadd", "zinterstore", "zrem", "zunionstore", "eval", "evalsha")
+		"sinterstore", "srem", "sunionstore", "zadd", "zinterstore", "zrem", "zunionstore")
+	add(ArMin3, true, "eval", "evalsha")
 	add(ArEven, true, "mset")
 	// local
 	add(ArZ, false, "ping", "quit")
@@ -98,6 +100,8 @@ func ArityOK(a Arity, n int) bool {
 		return n >= 1
 	case ArEven:
 		return n >= 2 && n%2 == 0
+	case ArMin3:
+		return n >= 3
 	}
 	return false
 }
